@@ -319,3 +319,8 @@ func TestVerif_C01(t *testing.T) {
 	kit.Run(s, "grammar_programs", kit.N{Quick: 30000, Thorough: 3000000}, c01GenGrammar, c01Check)
 	kit.Run(s, "raw_programs", kit.N{Quick: 10000, Thorough: 1000000}, c01GenRaw, c01Check)
 }
+
+// FuzzVerif_C01 drives the grammar-program differential with Go's coverage-guided fuzzer.
+func FuzzVerif_C01(f *testing.F) {
+	kit.Fuzz(f, "C01", "grammar_programs", c01GenGrammar, c01Check)
+}
